@@ -521,6 +521,35 @@ theorem deref_var_typed (D : Decls) (Γ : List (String × CT)) (e : CExpr) (t : 
     | zero => omega
     | succ d => simp [typeOf, he, ctOf, hd]
 
+/-- **C10.accepts_iff** — the translator (model) refuses a column exactly when the property lets
+it: a method call on `double`/`float`/`int`, an index or a loop on something that is not a
+collection, a bare collection as a column, `+ 1` on a non-arithmetic value. Every other chain
+over declared (or undeclared, then `double`) methods is translated. -/
+theorem accepts_iff (reg : Registry) (rootElem : Term) (steps : List Step) (fin : ColFin) :
+    (runCol reg rootElem steps fin).toOption.isSome = specAccepts reg rootElem steps fin := by
+  unfold runCol specAccepts
+  simp only
+  have h := runChain_ty reg steps
+    { gamma := [(loopVar 0, ctOf rootElem)], loops := [], nvar := 1, e := .var (loopVar 0),
+      ty := .value rootElem, warns := [], iterDepths := [] }
+  simp only at h
+  rw [← h]
+  cases hr : runChain reg steps
+      { gamma := [(loopVar 0, ctOf rootElem)], loops := [], nvar := 1, e := .var (loopVar 0),
+        ty := .value rootElem, warns := [], iterDepths := [] } with
+  | error e => simp [tyOfResult, Except.toOption]
+  | ok s =>
+    simp only [tyOfResult]
+    unfold finishCol
+    cases hty : s.ty with
+    | coll a b => simp [Except.toOption]
+    | value t =>
+      cases fin with
+      | plain => simp [Except.toOption]
+      | eqConst c => simp [Except.toOption]
+      | addOne =>
+        by_cases har : t.name ∈ arithNames <;> simp [har, Except.toOption]
+
 /-- **C10.tree_type_pointer_counterexample** — a pointer-valued method with a `tree_type`
 (`double*` stored as `float`): the column is declared `float*` but the value is pushed through
 `static_cast<float>(…)`, which is ill typed. -/
